@@ -1116,9 +1116,9 @@ func init() {
 		x.Add(&Family{Name: "readpath", Quick: 12000, Thor: 300000, Run: c07ReadPath})
 		x.Add(&Family{Name: "clean-join", Quick: 4000, Thor: 100000, Run: c07CleanJoin})
 		x.Add(&Family{Name: "folder-item-path", Quick: 4000, Thor: 100000, Run: c07FuPath})
-		x.Add(&Family{Name: "handlers-canary", Quick: 96, Thor: 2500, Run: c07Canary})
-		x.Add(&Family{Name: "accounts", Quick: 32, Thor: 600, Run: c07Accounts})
-		x.Add(&Family{Name: "transfers", Quick: 32, Thor: 320, Run: c07Transfers})
+		x.Add(&Family{Name: "handlers-canary", Quick: 256, Thor: 4000, Run: c07Canary})
+		x.Add(&Family{Name: "accounts", Quick: 48, Thor: 800, Run: c07Accounts})
+		x.Add(&Family{Name: "transfers", Quick: 48, Thor: 480, Run: c07Transfers})
 		if x.Tier == "thorough" {
 			x.Add(&Family{Name: "strace", Quick: 0, Thor: 24, Run: c07Strace})
 		}
